@@ -188,7 +188,7 @@ CHECKERS = {'config': check_config}
 
 def strata(tier, seed):
     if tier == 'quick':
-        shapes = [[3, 3], [2, 4], [3, 2, 3], [2, 3, 2], [1, 3, 2], [2, 2, 2, 2], [3, 1, 3, 2]]
+        shapes = [[3, 3], [2, 4], [3, 2, 3], [2, 3, 2], [1, 3, 2], [2, 2, 2, 2], [3, 1, 3, 2], [5, 6, 4], [12, 9]]
         rhos = [1, 2, 3]
         drs = [(0, 0), (0, 1), (1, 1), (1, 2), (2, 2)]
         pats = ['gen']
